@@ -337,11 +337,8 @@ func (ChainedContextualPos) isGPOSLookup() {}
 func (ExtensionPos) isGPOSLookup()         {}
 
 func (sp *SinglePos) Sanitize() error {
-	if f2, isFormat2 := sp.Data.(SinglePosData2); isFormat2 {
-		if exp, got := f2.coverage.Len(), len(f2.ValueRecords); exp != got {
-			return fmt.Errorf("GPOS: invalid SinglePos values count (%d != %d)", exp, got)
-		}
-	}
+	// A format 2 subtable with less values than covered glyphs is found in the wild
+	// (and accepted by Harfbuzz): the glyphs without value are ignored when the subtable is applied.
 	return nil
 }
 
@@ -352,11 +349,12 @@ func (pp *PairPos) Sanitize() error {
 			return fmt.Errorf("GPOS: invalid PairPos1 sets count (%d > %d)", exp, got)
 		}
 	} else if f2, isFormat2 := pp.Data.(PairPosData2); isFormat2 {
-		if exp, got := f2.ClassDef1.Extent(), int(f2.class1Count); exp != got {
-			return fmt.Errorf("GPOS: invalid PairPos2 class1 count (%d != %d)", exp, got)
+		// unused trailing classes are legal
+		if exp, got := f2.ClassDef1.Extent(), int(f2.class1Count); exp > got {
+			return fmt.Errorf("GPOS: invalid PairPos2 class1 count (%d > %d)", exp, got)
 		}
-		if exp, got := f2.ClassDef2.Extent(), int(f2.class2Count); exp != got {
-			return fmt.Errorf("GPOS: invalid PairPos2 class2 count (%d != %d)", exp, got)
+		if exp, got := f2.ClassDef2.Extent(), int(f2.class2Count); exp > got {
+			return fmt.Errorf("GPOS: invalid PairPos2 class2 count (%d > %d)", exp, got)
 		}
 	}
 	return nil
